@@ -380,3 +380,24 @@ Proof.
       [|apply init_sync|exact Hrun]. intros; eapply step_sync; eauto. }
   pose proof (hist_ok_split (P_sync cfg) _ _ _ _ (proj2 J) Hs) as Hp. cbn in Hp. exact (Hp Hsync).
 Qed.
+
+(* ================================================================ generation end with queued requests
+   The step LLoopFinal (ctx.Done branch of the commit loops) FIRST drains Reader.commits into the
+   stash and only then commits: every drained request becomes a waiter of that final commit and
+   is covered by the stash the commit will carry. *)
+Lemma final_drains_then_commits : forall cfg s r s', cfg_sync cfg = true ->
+  step cfg s (LLoopFinal r) = Some s' ->
+  exists ws,
+    rd_loop (st_rd s' r) = CLBusy ws commitRetries true 0 /\
+    rd_commits (st_rd s' r) = [] /\
+    forall rq, In rq (rd_commits (st_rd s r)) ->
+      In (cq_id rq) ws /\
+      forall t c, In (t, c) (cq_commits rq) -> le_opt c (lookup (rd_stash (st_rd s' r)) t).
+Proof.
+  intros cfg s r s' Hsync H. cbn [step] in H. destr_step H.
+  cbn [set_rd st_rd]. rewrite upd_same. cbn. rewrite Hsync.
+  eexists; split; [reflexivity|]. split; [reflexivity|].
+  intros rq Hin. split.
+  - apply in_map; exact Hin.
+  - intros t c Hc. eapply foldmerge_covers; eauto.
+Qed.
